@@ -415,6 +415,37 @@ GROUPS["btor2_rt"] = dict(_MODEL, **{
     ],
 })
 
+_BTOR2_TOKEN_SPECS = [
+    ("unexpected", "input, expected", "", None), ("skip_whitespace", "input", "", None),
+    ("newline", "input", "", None), ("space", "input", "", None), ("comment_start", "input", "", None),
+    ("required_space", "input", "", None), ("node_id", "input", "", None),
+    ("required_node_id", "input", "", None), ("required_sort_id", "input", "", None),
+    ("required_positive_int", "input, what", "", None), ("required_nonnegative_int", "input, what", "", None),
+    ("required_hex_constant", "input", "", "required_constant"),
+    ("required_decimal_constant", "input", "", "required_constant"),
+    ("required_binary_constant", "input", "", "required_constant"),
+    ("node_token", "input", "", None), ("sort_token", "input", "", None),
+    ("symbol_name", "input", "", None), ("comment_body", "input", "", None), ("eof", "input", "", None),
+]
+
+GROUPS["btor2_parser_t2"] = dict(_MODEL, **{
+    "name": "btor2_parser_t2",
+    "package": "flussab-btor2",
+    "prefix": "parser::verif_parser::",
+    "overlay": [("flussab-btor2/src/token.rs", "stub", "harness/btor2/token_stub.rs"),
+                ("flussab-btor2/src/parser.rs", "parser", "harness/btor2/parser_t2.rs")],
+    "inject": _stub_injects("flussab-btor2/src/token.rs", _BTOR2_TOKEN_SPECS),
+    "params": {"quick": {"N": 2}, "thorough": {"N": 2}},
+    "flags": ["--default-unwind", "5"],
+    "rss_gb": 24,
+    "timeout": {"quick": 1500, "thorough": 3600},
+    "harnesses": [
+        ("next_line_justice", {"props": ["C03", "C04", "C05", "C09", "C06"], "cost": 9, "what": "btor2 next_line, justice lines, from any parser state (stale buffers): the conditions are exactly this line's ids, as many as declared; clean end only via eof; handed out right after the line"}),
+        ("next_line_other", {"props": ["C04", "C05", "C09"], "cost": 9, "what": "btor2 next_line, one representative keyword per dispatch arm"}),
+        ("reach_btor2_parser", {"kind": "reach", "cost": 5, "what": "vacuity twin"}),
+    ],
+})
+
 GROUPS["parser_c15"] = {
     "name": "parser_c15",
     "package": "flussab",
@@ -548,7 +579,7 @@ PROPERTIES["C01"] = {
 
 PROPERTIES["C04"] = {
     "level": "other",
-    "groups": ["reader_step", "text_t0", "cnf_token_t0", "aiger_token_t0", "btor2_token_t0", "cnf_parser_t2"],
+    "groups": ["reader_step", "text_t0", "cnf_token_t0", "aiger_token_t0", "btor2_token_t0", "cnf_parser_t2", "btor2_parser_t2"],
     "claim": "I/O-error reporting by composition: (1) reader step with a terminal error: the delivered prefix is exposed as complete input, the error is parked once, no further reads; (2) LineReader::give_up*: a parked I/O error always wins over a syntax error; (3) every tokenizer harness runs with a possibly failing source and asserts that a parked error is never lost or invented, that every eof token succeeds only if the source did not fail, and that the end-of-input acceptors that bypass eof (AIGER comment section, BTOR2 comment body) do not hand out a value cut short by the failure; (4) T2: a clean end is reached only through the eof token.",
     "level_note": _COMPOSED_NOTE,
     "functions": ["DeferredReader::request_more", "LineReader::{give_up, give_up_at}", "{cnf,aiger,btor2}::token::eof", "flussab_aiger::token::{remaining_line_content, remaining_file_content}", "flussab_btor2::token::comment_body", "cnf::Parser::next_clause"],
@@ -560,7 +591,7 @@ PROPERTIES["C04"] = {
 
 PROPERTIES["C05"] = {
     "level": "model_checking",
-    "groups": ["text_t0", "cnf_token_t0", "aiger_token_t0", "aiger_token_small", "btor2_token_t0", "btor2_token_wide", "cnf_parser_t2", "aiger_ascii_t2", "aiger_binary_t2"],
+    "groups": ["text_t0", "cnf_token_t0", "aiger_token_t0", "aiger_token_small", "btor2_token_t0", "btor2_token_wide", "cnf_parser_t2", "aiger_ascii_t2", "aiger_binary_t2", "btor2_parser_t2"],
     "claim": "Panic/overflow/termination freedom per unit: every harness of the tokenizer and parser-control tiers is checked by CBMC with Rust's checked semantics (arithmetic overflow, slice bounds, unwrap/expect, debug assertions are verification conditions) and with unwinding assertions (every scanner loop exits within the window), from symbolic LineReader/parser states, so error-location arithmetic (position - line_start, count - 1, (I+1)*2, limit -= count) is covered for all values.",
     "level_note": "Absence of overflow in the checked build implies the unchecked build computes the same values. Memory-allocation bounds are OUTSIDE: symbolic allocation sizes exhaust CBMC (the AIGER pre-allocation defect D6 was found by reading and fixed, no check reports it). Stack depth: no recursion in the parsers (not checked by the solver). T2 coverage: cnf next_clause/new, AIGER Header::parse/Parser::new/next_symbol; other control logic only at token level.",
     "functions": ["all token functions of the three format crates", "flussab::text::*", "cnf::Parser::{new,next_clause}", "aiger::{ascii,binary}::{Header::parse, Parser::new, next_symbol}"],
@@ -584,7 +615,7 @@ PROPERTIES["C08"] = {
 
 PROPERTIES["C09"] = {
     "level": "other",
-    "groups": ["reader_step", "text_t0", "cnf_token_t0", "aiger_token_t0", "btor2_token_t0", "btor2_token_wide", "cnf_parser_t2", "aiger_ascii_t2", "aiger_binary_t2"],
+    "groups": ["reader_step", "text_t0", "cnf_token_t0", "aiger_token_t0", "btor2_token_t0", "btor2_token_wide", "cnf_parser_t2", "aiger_ascii_t2", "aiger_binary_t2", "btor2_parser_t2"],
     "claim": "No read past the completing line, by composition: (1) reader: exactly one successful read per refill, none when buffered data suffices or after end/error (C02 step harnesses on the real reader); (2) tokenizers: a ghost high-water mark of requested offsets proves that line-terminating tokens request nothing beyond the LF and every other token at most one byte beyond itself (fast paths read only buffered bytes); (3) T2: item-returning parser functions return right after the terminating token.",
     "level_note": _COMPOSED_NOTE,
     "functions": ["DeferredReader::{request_more, request, request_byte_at_offset}", "line-terminating tokens of cnf/aiger/btor2", "cnf::Parser::next_clause", "aiger Header::parse / next_symbol"],
@@ -608,7 +639,7 @@ PROPERTIES["C10"] = {
 
 PROPERTIES["C03"] = {
     "level": "other",
-    "groups": ["aiger_binary_rt", "btor2_rt", "writer_digits", "aiger_ascii_t2", "aiger_binary_t2"],
+    "groups": ["aiger_binary_rt", "btor2_rt", "writer_digits", "aiger_ascii_t2", "aiger_binary_t2", "btor2_parser_t2"],
     "claim": "Round trip decided per entry and by composition, each link a SAT-based bounded model check of real code: (a) binary AIGER 7-bit delta encoding: write_binary_uint -> delta_code/binary_uint is the identity for every value < 2^RT_BITS with exact consumption; (b) BTOR2: every operator name the writer emits is a keyword the parser maps back to the same operator; every constant constructible through the validating TryFrom constructors is read back entirely by the matching constant token; (c) decimal numbers: the writer's integer text is the canonical decimal text of the value (C11 digits harnesses) and the parsers' number tokens return exactly the decimal value of a numeral (C06), so number o text o number = identity; (d) AIGER headers/symbols: the parser's limits do not reject what the writer can produce (T2 header_parse / next_symbol).",
     "level_note": "PARTIAL: whole-line round trips (write_clause -> next_clause, AIGER latch/and-gate lines, BTOR2 Line::write_into -> next_line) were attempted and exhaust CBMC's memory (writer formatting + parser in one query), so line structure (separators, field order) is NOT covered by a solver query; it is covered only by the repository's own round-trip tests. The converse direction parse o write o parse is covered only at token level (leading zeros, -0).",
     "functions": ["flussab_aiger::binary::Writer::write_binary_uint", "flussab_aiger::token::{delta_code, binary_uint}", "flussab_btor2::btor2::{BinaryOp,UnaryOp,TernaryOp}::name", "flussab_btor2::token::{node_token, required_*_constant}", "flussab_btor2::btor2::{BinaryConst,DecimalConst,HexConst}::try_from", "flussab::write::text::ascii_digits", "aiger Header::parse / next_symbol"],
